@@ -2,7 +2,9 @@
 C13 — Cancel scopes interrupt on time, swallow only their own cancel, honour shields.
 
 real run : a generated program (nested move_on/timeout scopes, sleeps, checkpoints, shielded sections,
-           scope.cancel()/reschedule, user-level `except CancelledError`, task-group children) is compiled to real
+           scope.cancel()/reschedule, user-level `except CancelledError` / `finally` clean-up, task-group children started
+           with start_soon() / start(), Task.join()/wait(), the other checkpoints of the backend API: Event.wait,
+           Lock.acquire, Condition.wait, run_in_thread in both modes, sleep_until, sleep_forever) is compiled to real
            coroutines on `AsyncIOBackend` and run on a virtual-time event loop, one `_run_once()` at a time, with
            external `task.cancel()` calls injected at chosen ticks; the trace is canonical text
 model run: the same program through the Lean kernel + CancelScope model (`endriver`, model `cs`)
@@ -65,9 +67,18 @@ ASSUMPTIONS = [
 ]
 RULE = (
     "case = program (<= 14 statements, depth <= 4) x external cancel ticks (0-2) x tie position of the external cancel; "
+    "three families: the modelled statement set (compared with the Lean model); + operations that fail; + checkpoints of "
+    "the task-group / backend API as the place where the cancellation arrives (start, start_soon, __aexit__, Task.wait, "
+    "Event / Lock / Condition / run_in_thread / sleep_until / sleep_forever, finally clean-up that shields itself), half "
+    "of them directed: such a checkpoint inside a scope whose deadline has passed / passes at every tick / that is "
+    "cancelled explicitly / inside a cancelled outer scope, external cancel at every tick, further checkpoints after the scope; "
     "non-trivial = at least one blocking operation raised CancelledError or a cancellation was swallowed by a shield; "
-    "class = set of features hit (caught, propagated, shield-swallow, timeout, ext, redelivery, leftover); distinct by full case digest"
+    "class = set of features hit (caught, propagated, shield-swallow, timeout, ext, redelivery, leftover, op-<primitive>); "
+    "distinct by full case digest"
 )
+
+# the statement set of Model/CancelScope.lean (everything else runs on the real side and is judged by the oracle only)
+MODELLED = {"sleep", "yield", "syield", "cancel", "resched", "scope", "endscope", "shield", "endshield", "try", "endtry"}
 
 _fix_probe: dict[str, bool] = {}
 _real_hash: dict[str, int] = {}      # case digest -> hash of the real trace (to notice a model/code disagreement)
@@ -102,8 +113,10 @@ def model_post(case: dict, lines: list[str]) -> list[str]:
 
 
 def model_input(case: dict, real: list[str]):
-    if any(ln.split()[0] in ("group", "child", "fwait", "fail", "join", "trye") for ln in case["prog"]):
-        return None  # task groups, operations that fail (harness futures, join of a failing child): oracle only
+    if any(ln.split()[0] not in MODELLED for ln in case["prog"]):
+        # task groups, operations that fail (harness futures, join of a failing child), checkpoints of the task-group /
+        # backend API (start, start_soon, Event / Lock / Condition / run_in_thread, …), try/finally: oracle only
+        return None
     head = f"cs {int(fixed_tree())} {int(case.get('ext_last', False))} 3000 " + " ".join(str(t) for t in case.get("ext", []))
     return head.strip(), list(case["prog"])
 
@@ -144,4 +157,5 @@ def generate(rng, tier: str, boost: int):
 
 def extra_coverage(stats) -> dict:
     return {"model_variant": "fix" if fixed_tree() else "head",
-            "not_modelled": "task-group children (oracle only)"}
+            "not_modelled": "task-group children, operations that fail, checkpoints of the task-group / backend API "
+                            "(start, start_soon, Event / Lock / Condition / run_in_thread, ...), try/finally: oracle only"}
